@@ -4,9 +4,11 @@
 EXTENDS ParallelStats, Json
 CONSTANTS Ns,        \* set of sample counts
           Vals,      \* integer sample values
-          Wts,       \* integer weights (0 allowed in Part = "trace" only)
+          Wts,       \* integer weights >= 0 (0: an underflowed weight)
           WDen,      \* weights are Wts / WDen
-          SmpMode,   \* "all": every sequence over Vals x Wts;  "generic": fixed patterns cut to length n
+          SmpMode,   \* "all": every sequence over Vals x Wts;  "generic": fixed patterns cut to length n;
+                     \* "zeromask": the patterns with the weights of a set Z of positions set to exactly zero
+          Gens,      \* which of the fixed patterns
           Export
 
 QPairs == {[v |-> Q(a), w |-> R(b, WDen)] : a \in Vals, b \in Wts}
@@ -17,13 +19,30 @@ GenW == << <<1, 2, 1, 4, 3, 1, 2, 2, 1, 3, 4, 1>>,
            <<4, 1, 3, 1, 2, 2, 1, 4, 1, 1, 3, 2>>,
            <<1, 1, 2, 2, 1, 1, 2, 2, 3, 3, 1, 1>> >>
 Generic(g, n) == [i \in 1..n |-> [v |-> Q(GenV[g][i]), w |-> R(GenW[g][i], WDen)]]
+(* Zero-weight positions that matter for k ranks and a list of n samples (round-robin split):           *)
+(* the first sample of one rank; the first sample of every rank; every sample of one rank; every sample  *)
+(* but one; every sample but two neighbours; the last sample only (never the first of a rank when        *)
+(* n > k).  Never all of them.                                                                           *)
+MinI(a, b) == IF a < b THEN a ELSE b
+MasksFor(k, n) ==
+    ( {{j} : j \in 1..MinI(k, n)}
+      \cup {1..MinI(k, n - 1)}
+      \cup {{i \in 1..n : (i - 1) % k = r} : r \in 0..(k - 1)}
+      \cup {(1..n) \ {j} : j \in 1..n}
+      \cup {(1..n) \ {j, j + 1} : j \in 1..(n - 1)}
+      \cup {{n}} ) \ {{}, 1..n}
+Masked(g, n, Z) == [i \in 1..n |-> [v |-> Q(GenV[g][i]), w |-> IF i \in Z THEN RZero ELSE R(GenW[g][i], WDen)]]
 MCSampleSpace == IF SmpMode = "all" THEN UNION {[1..n -> QPairs] : n \in Ns}
-                 ELSE {Generic(g, n) : g \in 1..3, n \in Ns}
+                 ELSE IF SmpMode = "generic" THEN {Generic(g, n) : g \in Gens, n \in Ns}
+                 ELSE UNION {{Masked(g, n, Z) : g \in Gens, Z \in UNION {MasksFor(k, n) : k \in NRs}} : n \in Ns}
+\* (export) a zero mask is paired with the rank counts it was made for
+Relevant == SmpMode = "zeromask" => {i \in 1..N : smp[i].w = RZero} \in MasksFor(nr, N)
 
 DoneVar == Part = "var" /\ \A r \in Ranks : Finished(r)
 DoneTrace == Part = "trace" /\ \A r \in Ranks : out[r] # <<>>
 XJ(x) == IF IsNum(x) THEN [k |-> "num", q |-> x[2]] ELSE [k |-> x[1], q |-> <<0, 1>>]
 Emit ==
+    /\ Relevant
     /\ (Export /\ DoneVar) =>
          PrintT(<<"VEC", ToJson([nr |-> nr, n |-> N,
                                  v |-> [i \in 1..N |-> smp[i].v], w |-> [i \in 1..N |-> smp[i].w],
@@ -32,7 +51,8 @@ Emit ==
                                                            mean |-> IF acc[r].mean = NoneV THEN <<0, 1>> ELSE acc[r].mean,
                                                            M2 |-> IF acc[r].mean = NoneV THEN <<0, 1>> ELSE acc[r].M2]],
                                  mean |-> XJ(res[1][1].mean), var |-> XJ(res[1][1].var),
-                                 serialvar |-> XJ(SerialRes(smp).var)])>>)
+                                 defined |-> HasStats,
+                                 serialvar |-> XJ(SerialResG(ZeroGuard, smp).var)])>>)
     /\ (Export /\ DoneTrace) =>
          PrintT(<<"VEC", ToJson([nr |-> nr, n |-> N,
                                  v |-> [i \in 1..N |-> smp[i].v], w |-> [i \in 1..N |-> smp[i].w],
